@@ -564,6 +564,40 @@ func registerReflect(reg func(string, func(*Interp, []Value) Value)) {
 		return &RV{T: types.NewPointer(rv.T), V: rv.P, RO: rv.RO}
 	})
 	reg("(reflect.Value).IsNil", func(ip *Interp, a []Value) Value { return ip.rvIsNil(ip.asRV(a[0])) })
+	reg("(reflect.Value).Cap", func(ip *Interp, a []Value) Value {
+		rv := ip.asRV(a[0])
+		switch rv.kind() {
+		case reflect.Slice:
+			return i64(int64(cap(ip.rvVal(rv).(Slice).A)))
+		case reflect.Array:
+			return i64(int64(ip.rvLen("reflect.Value.Cap", rv)))
+		}
+		ip.rvPanic("reflect.Value.Cap", rv)
+		return nil
+	})
+	reg("(reflect.Value).Slice", func(ip *Interp, a []Value) Value {
+		rv := ip.asRV(a[0])
+		i, j := ip.concInt(a[1], 0, 64), ip.concInt(a[2], 0, 64)
+		switch rv.kind() {
+		case reflect.Slice:
+			sl := ip.rvVal(rv).(Slice)
+			if i < 0 || j < i || j > int64(cap(sl.A)) {
+				ip.rtPanicV("reflect.Value.Slice: slice index out of bounds")
+			}
+			if sl.A == nil {
+				return &RV{T: rv.T, V: Slice{}}
+			}
+			return &RV{T: rv.T, V: Slice{A: sl.A[i:j], O: sl.O}, RO: rv.RO}
+		case reflect.String:
+			st := ip.rvVal(rv).(Str)
+			if i < 0 || j < i || j > int64(st.Len()) {
+				ip.rtPanicV("reflect.Value.Slice: string slice index out of bounds")
+			}
+			return &RV{T: rv.T, V: st.Slice(int(i), int(j)), RO: rv.RO}
+		}
+		ip.rvPanic("reflect.Value.Slice", rv)
+		return nil
+	})
 	reg("(reflect.Value).IsZero", func(ip *Interp, a []Value) Value {
 		rv := ip.asRV(a[0])
 		if rv.T == nil {
@@ -870,13 +904,39 @@ func registerReflect(reg func(string, func(*Interp, []Value) Value)) {
 		ip.mustBeExported("reflect.Append", s)
 		st := s.T.Underlying().(*types.Slice)
 		old := ip.rvVal(s).(Slice)
-		na := make([]Value, 0, len(old.A)+len(xs))
-		for _, v := range old.A {
-			na = append(na, copyVal(v))
-		}
+		n := len(old.A)
+		var vals []Value
 		for _, x := range xs {
 			ip.mustBeExported("reflect.Value.Set", x)
-			na = append(na, ip.assignTo("reflect.Set", x, st.Elem()))
+			vals = append(vals, ip.assignTo("reflect.Set", x, st.Elem()))
+		}
+		if len(vals) == 0 {
+			return &RV{T: s.T, V: old}
+		}
+		if n+len(vals) <= cap(old.A) {
+			// like the real reflect.Append: spare capacity is used in place, i.e. the new
+			// elements are written into the backing array shared with the original slice
+			ip.checkWrite(old.O, "reflect.Append in place")
+			a := old.A[:n+len(vals)]
+			for i, v := range vals {
+				ip.setCell(&a[n+i], old.O, copyVal(v))
+			}
+			return &RV{T: s.T, V: Slice{A: a, O: old.O}}
+		}
+		newCap := n + len(vals)
+		if c := 2 * cap(old.A); c > newCap && n < 256 {
+			newCap = c
+		}
+		na := make([]Value, n+len(vals), newCap)
+		for i, v := range old.A {
+			na[i] = copyVal(v)
+		}
+		for i, v := range vals {
+			na[n+i] = copyVal(v)
+		}
+		full := na[:newCap]
+		for i := n + len(vals); i < newCap; i++ {
+			full[i] = zero(st.Elem())
 		}
 		return &RV{T: s.T, V: Slice{A: na, O: ip.newObj(st.Elem(), "reflect.Append")}}
 	}
